@@ -557,6 +557,13 @@ impl World {
                 let installed = c.post.snap_index == idx && (c.pre.snap_index != idx || c.post.snap_term != c.pre.snap_term) && c.post.snap_index != 0;
                 let cs = ConfShape::from_cs(meta.get_conf_state());
                 if installed {
+                    // a snapshot sent in term T never removes entries the node acknowledged in term T
+                    if let Some((at, ai)) = self.ghost.acked.get(&n).cloned() {
+                        if at == c.post.term && ai > c.post.last_index {
+                            let d = format!("node {n} installed a snapshot at {idx} that discarded entries up to {ai} which it had acknowledged to the leader of the same term {at}");
+                            return Err(self.violation("C15", "C15.install_effect", n, d, "install_discarded_acknowledged".into()));
+                        }
+                    }
                     *self.stats.entry("chk.C15.install_guard").or_insert(0) += 1;
                     if idx < c.pre.commit {
                         let d = format!("node {n} accepted a snapshot at {idx} behind its commit index {}", c.pre.commit);
